@@ -25,8 +25,7 @@ Proof.
     destruct (Nat.leb 10 (length l)); [left; reflexivity|right; reflexivity].
   - (* ptr *)
     destruct (s_remotehost X); [right; reflexivity|].
-    destruct (d_name D (s_client X)) as [e|names]; [left; reflexivity|]. cbn [andb].
-    destruct (negb _); [left; reflexivity|right; reflexivity].
+    destruct (d_name D (s_client X)) as [e|names]; [left; reflexivity|right; reflexivity].
 Qed.
 
 Lemma eval_mech_ref domain m c : mref (eval_mech D X true recT domain m c) (eval_mech D X false recF domain m c).
